@@ -10,7 +10,7 @@ def run(R, ctx):
     rng = random.Random(R.seed * 31 + 11)
     execsuite.run_exec_suite(
         R, ctx, name="sets", extra_lines=families.refused_changes_nothing(rng, 300 if R.tier == "quick" else 5000),
-        gens=[(1, execgen_set.set_cmd)],
+        gens=[(1, execgen_set.SetGen())],
         nprog=(500, 8000), corpus="exec_c11", keys=execgen_set.KEYS,
         what="set commands (SADD, SREM, SISMEMBER, SCARD, SMEMBERS, SMOVE, SPOP and SRANDMEMBER with and without count in checker mode, "
              "SUNION/SINTER/SDIFF and their STORE forms with 1-4 sources incl. repeated keys and destination among the sources) over existing, "
